@@ -9,7 +9,7 @@ verify, be defined, return the same results, leave the same memory and produce t
 
   pass declines (IR text unchanged)            -> fine, counted
   pass raises                                   -> outcome "reported-failure", counted, NOT a violation
-  pass does not return within PASS_TIMEOUT_S    -> outcome "timeout", counted, NOT a violation
+  pass burns > PASS_TIMEOUT_S of CPU time      -> outcome "timeout", counted, NOT a violation
   original defined on no vector of the grid     -> program skipped (no pass is run on it)
 
 Signature:  C16|<pass>|<shape class>|<result|effect-order|effect-count|effect-value|poison-introduced|
@@ -45,7 +45,7 @@ ALL_PASSES = SCF_PASSES + AFFINE_PASSES + SYMREF_PASSES
 _DEFAULT_ORDER = ("nested-for-iv-sum", "nested-for-ivs-unused", "nested-for",
                   "while", "index-switch", "if-guarded-remsi", "if-guarded-floordivsi", "if-guarded-ceildivsi", "if-guarded-divsi", "if-pure", "if-effect", "if",
                   "load-store", "iv-muli-by-nonpositive-const", "iv-muli-by-argument", "iv-muli-by-positive-const", "iv-addi", "invariant-remsi", "invariant-pure", "invariant-effect",
-                  "iter-arg", "symbolic-bounds", "const-bounds")
+                  "two-iter-args-crossed-yield", "two-iter-args", "iter-arg", "symbolic-bounds", "const-bounds")
 _PRIORITY = {
     "scf-for-loop-range-folding": ("iv-muli-by-nonpositive-const", "iv-muli-by-argument", "iv-muli-by-positive-const", "iv-addi"),
     "licm": ("invariant-remsi", "load-store", "invariant-pure", "invariant-effect"),
@@ -98,13 +98,14 @@ def _on_alarm(signum, frame):
 
 def apply_pass(name: str, module) -> None:
     x = X()
-    old = signal.signal(signal.SIGALRM, _on_alarm)
-    signal.setitimer(signal.ITIMER_REAL, PASS_TIMEOUT_S)
+    # CPU-time (not wall-clock) alarm, so that the outcome does not depend on the load of the machine
+    old = signal.signal(signal.SIGVTALRM, _on_alarm)
+    signal.setitimer(signal.ITIMER_VIRTUAL, PASS_TIMEOUT_S)
     try:
         x["passes"][name]().apply(x["ctx"], module)
     finally:
-        signal.setitimer(signal.ITIMER_REAL, 0)
-        signal.signal(signal.SIGALRM, old)
+        signal.setitimer(signal.ITIMER_VIRTUAL, 0)
+        signal.signal(signal.SIGVTALRM, old)
 
 
 # ======================================================================================
@@ -631,6 +632,37 @@ def gen_while(quick: bool) -> list[dict]:
     return out
 
 
+# ---- loops with TWO iter_args and every yield wiring ----------------------------------------------
+def gen_for2(quick: bool) -> list[dict]:
+    """scf.for with iter_args(%a = %x, %b = %y), body values %s = %a + %b and %t = %b * 2 + %i, and `scf.yield u, v` for every
+    ordered pair (u, v) over {%a, %b, %s, %t}; constant bounds with trip counts 0..3 (unroll) and a symbolic upper bound."""
+    out = []
+    bounds = [(0, 0, 1), (2, 0, 1), (0, 1, 1), (0, 2, 1), (0, 3, 1), (1, 4, 2), (0, 4, 2), (-2, 4, 3)]
+    if not quick:
+        bounds += [(0, 4, 1), (-1, 2, 1), (0, 3, 2)]
+    bounds.append((0, "arg", 1))
+    vals = ("%a", "%b", "%s", "%t")
+    for lb, ub, st in bounds:
+        for u in vals:
+            for v in vals:
+                for logged in ((False, True) if not quick or ub != "arg" else (False,)):
+                    used = {lb, st, 2}
+                    if ub != "arg":
+                        used.add(ub)
+                    sig = "%x: index, %y: index" + (", %n: index" if ub == "arg" else "")
+                    t = _HDR + f"  func.func @f({sig}) -> (index, index) {{\n" + _consts(used)
+                    t += (f"    %r, %q = scf.for %i = {_c(lb)} to {'%n' if ub == 'arg' else _c(ub)} step {_c(st)} "
+                          "iter_args(%a = %x, %b = %y) -> (index, index) {\n")
+                    t += "      %s = arith.addi %a, %b : index\n      %d = arith.muli %b, %c2 : index\n      %t = arith.addi %d, %i : index\n"
+                    if logged:
+                        t += "      func.call @log(%a) : (index) -> ()\n      func.call @log(%b) : (index) -> ()\n"
+                    t += f"      scf.yield {u}, {v} : index, index\n    }}\n    func.return %r, %q : index, index\n  }}\n}}\n"
+                    crossed = v == "%a" or u == "%b"
+                    feats = {"two-iter-args-crossed-yield" if crossed else "two-iter-args"}
+                    out.append(_prog(t, [ARGV] * (3 if ub == "arg" else 2), "for", feats, SCF_PASSES))
+    return out
+
+
 def gen_memloops(quick: bool) -> list[dict]:
     """loops over a 4-element buffer with memref.load / memref.store (licm must not move the accesses)"""
     out = []
@@ -761,6 +793,44 @@ def gen_affine(quick: bool) -> list[dict]:
     return out
 
 
+# ---- affine accesses to a 2-D buffer with permuted / duplicated dims -------------------------------
+MT2 = "memref<2x3xindex>"
+MEM2 = (5, -3, 2, 7, 11, -6)
+MAPS2 = (("(d0, d1)", "id"), ("(d1, d0)", "swap"), ("(d0, d0)", "dup0"), ("(d1, d1)", "dup1"))
+
+
+def gen_affine2d(quick: bool) -> list[dict]:
+    """affine.load / affine.store on memref<2x3xindex> with every access map (d0,d1)->(d0,d1) | (d1,d0) | (d0,d0) | (d1,d1),
+    inside a 2-nest of affine.for (2x2 and 2x3 iterations) and with argument indices; out-of-bounds inputs are excluded."""
+    out = []
+    log = "func.call @log({}) : (index) -> ()"
+
+    def ld(res, mp, i, j, ind):
+        return f'{ind}{res} = "affine.load"(%m, {i}, {j}) <{{"map" = affine_map<(d0, d1) -> {mp}>}}> : ({MT2}, index, index) -> index\n'
+
+    def st(val, mp, i, j, ind):
+        return f'{ind}"affine.store"({val}, %m, {i}, {j}) <{{"map" = affine_map<(d0, d1) -> {mp}>}}> : (index, {MT2}, index, index) -> ()\n'
+
+    yld = '"affine.yield"() : () -> ()\n'
+    for ml, nl in MAPS2:
+        for ms, ns in MAPS2 + ((None, "none"),):
+            feats = {"affine-2d-identity-map" if nl == "id" and ns in ("id", "none") else "affine-2d-permuted-map"}
+            for ni, nj in ((2, 2), (2, 3), (3, 2)):
+                body = ld("%v", ml, "%i", "%j", "        ") + f"        {log.format('%v')}\n"
+                if ms is not None:
+                    body += "        %w = arith.addi %v, %j : index\n" + st("%w", ms, "%i", "%j", "        ")
+                inner = _afor("", "() -> (0)", [], f"() -> ({nj})", [], 1, None, body + "        " + yld, "      ", iv="%j")
+                b = _afor("", "() -> (0)", [], f"() -> ({ni})", [], 1, None, inner + "      " + yld, "    ") + "    func.return\n"
+                out.append(_prog(_HDR + f"  func.func @f(%m: {MT2}) -> () {{\n" + b + "  }\n}\n", [(MEM2,)], "affine", feats, AFFINE_PASSES))
+            b = ld("%v", ml, "%a", "%b", "    ")
+            if ms is not None:
+                b += st("%a", ms, "%a", "%b", "    ")
+            b += "    func.return %v : index\n"
+            out.append(_prog(_HDR + f"  func.func @f(%m: {MT2}, %a: index, %b: index) -> (index) {{\n" + b + "  }\n}\n",
+                             [(MEM2,), ARGV, ARGV], "affine", feats, AFFINE_PASSES))
+    return out
+
+
 # ---- symref family ------------------------------------------------------------------------------
 def gen_symref(quick: bool) -> list[dict]:
     """every sequence over <= 2 symbols with <= N accesses: declare s | fetch s (logged) | update s = v,
@@ -835,7 +905,7 @@ def gen_symref(quick: bool) -> list[dict]:
 
 
 FAMILIES = (("for", gen_for), ("flatten", gen_flatten), ("if", gen_if), ("switch", gen_switch), ("while", gen_while),
-            ("memloops", gen_memloops), ("affine", gen_affine), ("symref", gen_symref))
+            ("memloops", gen_memloops), ("affine", gen_affine), ("symref", gen_symref), ("for2", gen_for2), ("affine2d", gen_affine2d))
 
 
 def all_programs(quick: bool) -> tuple[list[dict], dict]:
@@ -978,6 +1048,8 @@ def run(ctx):
         "flatten_nests": "perfect 2-nests, constant inner bounds, outer constant or argument, 4 body kinds x with/without iter_args"
                          + ("" if ctx.quick else ", index and i32"),
         "symref": f"<= 2 declared symbols, <= {4 if ctx.quick else 5} fetch/update ops in one block, plus 6 nested-region / declaration templates",
+        "two_iter_args": "iter_args(%a, %b), yield over all 16 ordered pairs of {%a, %b, a+b, 2b+i}, constant bounds with 0..3 trips + symbolic ub",
+        "affine_2d": "load/store on memref<2x3xindex>, maps (d0,d1)->(d0,d1)|(d1,d0)|(d0,d0)|(d1,d1), 2-nests 2x2/2x3/3x2 and argument indices",
         "passes": list(ALL_PASSES), "refsem_fuel": FUEL,
     }
     ctx.rule = ("programs are enumerated family by family (see bounds) and de-duplicated by text; states = distinct programs, "
